@@ -242,15 +242,21 @@ func streamMsg(m cqrs.JSONMarshaler, k int, i int) (*message.Message, string, an
 		return msg, "D", nil
 	case k == 8:
 		return message.NewMessage(fmt.Sprintf("s%d", i), []byte("{}")), "foreign", nil
-	default:
+	case k == 9:
 		msg, _ := m.Marshal(&A{})
 		msg.UUID = fmt.Sprintf("s%d", i)
 		msg.Payload = []byte("{not json")
 		return msg, "A-malformed", nil
+	default:
+		// a complete value followed by something else is not the serialisation of any value either
+		msg, _ := m.Marshal(&A{X: 7})
+		msg.UUID = fmt.Sprintf("s%d", i)
+		msg.Payload = append(msg.Payload, []byte(`{"x":8}`)...)
+		return msg, "A-malformed", nil
 	}
 }
 
-const nStream = 10
+const nStream = 11
 
 // The ack flags have one documented role each (AckCommandHandlingErrors: what happens to a *handler error*;
 // AckOnUnknownEvent: what happens to a message *no handler is registered for*). A message of a registered type
